@@ -1,6 +1,6 @@
 (* tree.PrunePathMap(values, true) keeps every entry that has no tombstone among its boundary ancestors. *)
 From Coq Require Import List NArith Bool Permutation.
-From OC Require Import Base.Bytes Model.Merge Proofs.MergeProofs Proofs.PathProofs.
+From OC Require Import Base.Bytes Model.Merge Proofs.MergeProofs Proofs.TextPathProofs.
 Import ListNotations.
 Open Scope N_scope.
 
